@@ -48,19 +48,26 @@ func (rl *RangeList) IsSlotInList(key string) bool {
 }
 
 func (rl *RangeList) InsertSlotInList(left, right uint16) {
-	if left <= right {
-		newRange := &Range{Left: left, Right: right}
-		i := sort.Search(len(rl.list), func(i int) bool {
-			return rl.list[i].Left > left
-		})
-		rl.list = append(rl.list, nil)
-		copy(rl.list[i+1:], rl.list[i:])
-		rl.list[i] = newRange
-		if left < rl.minLeft {
-			rl.minLeft = left
-		}
-		if right > rl.maxRight {
-			rl.maxRight = right
-		}
+	if left > right {
+		return
 	}
+	// keep the list sorted and disjoint : the binary search of IsSlotInList looks at one
+	// candidate range only, which is wrong as soon as ranges overlap or contain each other
+	rl.list = append(rl.list, &Range{Left: left, Right: right})
+	sort.Slice(rl.list, func(i, j int) bool {
+		return rl.list[i].Left < rl.list[j].Left
+	})
+	merged := rl.list[:0]
+	for _, r := range rl.list {
+		if n := len(merged); n > 0 && r.Left <= merged[n-1].Right {
+			if r.Right > merged[n-1].Right {
+				merged[n-1].Right = r.Right
+			}
+			continue
+		}
+		merged = append(merged, r)
+	}
+	rl.list = merged
+	rl.minLeft = rl.list[0].Left
+	rl.maxRight = rl.list[len(rl.list)-1].Right
 }
